@@ -153,6 +153,18 @@ class SymF:
   __gt__ = _c(z3.fpGT)
   __ge__ = _c(z3.fpGEQ)
 
+  def __eq__(s, o):
+    # numeric equality of jnp scalars (IEEE: +0 == -0, NaN != NaN); comparison with a non-number is False as for the real scalars
+    if o is None or isinstance(o, str):
+      return False
+    return SymB(z3.fpEQ(s.t, fl(o)))
+
+  def __ne__(s, o):
+    if o is None or isinstance(o, str):
+      return True
+    return SymB(z3.Not(z3.fpEQ(s.t, fl(o))))
+  __hash__ = None
+
   def __bool__(s):
     return E.decide(z3.Not(z3.fpIsZero(s.t)))
 
